@@ -196,7 +196,7 @@ def convert_hook_events(evs, label):
     res = []
     for inst in insts:
         lines, why = convert_instance(inst)
-        res.append({"label": inst["label"], "lines": lines, "skipped_why": why,
+        res.append({"label": inst["label"], "lines": lines, "skipped_why": why, "broken": inst.get("broken"),
                     "events": sum(1 for l in (lines or []) if l["a"] != "Reset"),
                     "forwards": sum(1 for e in inst["evs"] if e["ev"] == "fwd")})
     return res
@@ -232,6 +232,28 @@ def convert_instance(inst):
                       key=lambda x: json.dumps(x, sort_keys=True))
         return {"next": off(e["next"]), "pend": pend, "recv": sorted(off(x) for x in e["recv"]), "skip": sk, "nsk": len(sk),
                 "hcs": off(e["hcs"]), "stable": off(e["stable"]), "star": list(star), "lls": lls}
+    # was the state touched behind the API between two hook events?  (pre digest of an event vs post-state of the previous one;
+    # the skipped count is not compared next to an `abandon`, which is not ordered with the locked events)
+    broken = None
+    last = evs[0]
+    seq = [e for e in evs if e["ev"] != "fwd"]
+    has_abandon = any(e["ev"] == "abandon" for e in seq)
+    for i, e in enumerate(seq[1:], 1):
+        if e["ev"] == "abandon":
+            continue
+        if "pre" in e and "next" in last:
+            # an `abandon` (not under c.lock; its event may be numbered after sweeps that already saw its effect) only removes
+            near_abandon = any(x["ev"] == "abandon" for x in seq[max(0, i - 2):i + 2]) or \
+                (has_abandon and e["pre"][2] < sum(b - a + 1 for a, b in last["skip"] or []))
+            nsk = sum(b - a + 1 for a, b in last["skip"] or [])
+            want = [last["next"], len(last["pend"]), nsk, len(last["recv"])]
+            got = list(e["pre"])
+            if near_abandon:
+                want[2] = got[2]
+            if want != got and broken is None:
+                broken = "before event n=%s (%s): state %s, previous event left %s" % (e["n"], e["ev"], got, want)
+        last = e
+    inst["broken"] = broken
     star, lls, fw = [], 0, []
     first = evs[0]
     lines = [dict({"a": "Reset", "beh": inst["label"], "mn": first["mn"], "w": mx + 2, "wiring": "existing-test", "out": []}, **post(first, star, lls))]
@@ -309,52 +331,51 @@ def existing_tests(ctx):
     fwd_only = [i["label"] for i in insts if i["lines"] and i["events"] == 0 and i["forwards"] > 0]
     log("  existing tests with hook H2: %d tests (%d failed), %d cache instances, %d with events, %d outside the window"
         % (ntests, len(failed), len(insts), len(usable), len(too_big)))
-    # pass C first (any skipping policy: real clocks): an instance the spec does not explain - typically a test that pushes into
-    # pendingLogs / calls _addPendingLogs directly - is reported as NONCONFORMANCE and not judged; the others go through pass P
-    rejected = []
-    conforming = list(usable)
-    for _ in range(12):
-        if not conforming:
-            break
-        tr = os.path.join(ctx.scratch, "c08-existing-C%d.ndjson" % len(rejected))
+    # an instance whose state was changed behind the API between two hook events (a test pushing into skippedSeqs / pendingLogs
+    # directly) is not judged; every other instance goes through pass P (property) and then pass C (conformance, any skipping
+    # policy: real clocks)
+    direct = [i for i in usable if i["broken"]]
+    judged = [i for i in usable if not i["broken"]]
+    info = {"tests": ntests, "tests_failed": failed, "forwards_without_action_event": fwd_only, "cache_instances": len(insts),
+            "instances_with_events": len(usable), "events": sum(i["events"] for i in usable), "outside_window": too_big,
+            "state_changed_behind_api": [{"instance": i["label"], "where": i["broken"], "expected": KNOWN_DIRECT.get(i["label"].split("#")[0])} for i in direct],
+            "judged_instances": len(judged), "judged_events": sum(i["events"] for i in judged), "nonconforming": []}
+    ctx.cov["existing_tests"] = info
+    for i in direct:
+        ctx.notes.append("existing test instance %s not judged: state changed between hook events (%s)%s"
+                         % (i["label"], i["broken"], "; expected: the test " + KNOWN_DIRECT[i["label"].split("#")[0]] if i["label"].split("#")[0] in KNOWN_DIRECT else ""))
+    if not judged:
+        return
+    tr = os.path.join(ctx.scratch, "c08-existing-P.ndjson")
+    rows = [l for i in judged for l in i["lines"]]
+    write_ndjson(tr, rows)
+    ctx.cov["evaluations"] += len(judged)
+    vp = validate(ctx, SPEC, "Trace_ChangeCache", "Trace_ChangeCache_P_any.cfg", tr, timeout=3000, tag="existingP")
+    if vp.inv:
+        bad, start = locate_label(rows, max(0, (vp.line or 2) - 2))
+        report_violation(ctx, "existing:%s:%s" % (str(bad).split("#")[0], vp.inv), "repository test %s: real changeCache breaks %s at event %s" % (bad, vp.inv, vp.line),
+                         {"instance": bad, "invariant": vp.inv, "state": (vp.state or {}).get("_txt"), "trace": rows[start:max(0, (vp.line or 1) - 1)]})
+        return
+    if not vp.accepted:
+        raise Inconclusive("existing tests: pass P stopped at line %s of %s\n%s" % (vp.line, vp.total, vp.out[-1500:]))
+    conforming = list(judged)
+    for _ in range(8):
+        tr = os.path.join(ctx.scratch, "c08-existing-C%d.ndjson" % len(info["nonconforming"]))
         rows = [l for i in conforming for l in i["lines"]]
+        if not rows:
+            break
         write_ndjson(tr, rows)
-        vc = validate(ctx, SPEC, "Trace_ChangeCache", "Trace_ChangeCache_C_any.cfg", tr, timeout=3000, tag="existingC%d" % len(rejected))
+        vc = validate(ctx, SPEC, "Trace_ChangeCache", "Trace_ChangeCache_C_any.cfg", tr, timeout=3000, tag="existingC%d" % len(info["nonconforming"]))
         if not vc.inv and vc.accepted:
             break
         idx = min(len(rows), max(1, (vc.line or 1) - (1 if vc.inv else 0))) - 1      # the line that was not accepted
         bad, _ = locate_label(rows, idx)
         row = rows[idx]
-        rejected.append({"instance": bad, "invariant": vc.inv, "line": {k: row.get(k) for k in ("a", "seq", "end", "kind", "sk", "next", "pend", "skip", "out")}})
+        info["nonconforming"].append({"instance": bad, "invariant": vc.inv, "line": {k: row.get(k) for k in ("a", "seq", "end", "kind", "sk", "next", "pend", "skip", "out")}})
+        ctx.cov["nonconformance"] += 1
+        ctx.notes.append("existing test instance %s: pass C rejected (%s) at %s" % (bad, vc.inv, json.dumps(info["nonconforming"][-1]["line"])[:300]))
         conforming = [i for i in conforming if i["label"] != bad]
-    else:
-        raise Inconclusive("existing tests: more than 12 non-conforming cache instances: %s" % [r["instance"] for r in rejected])
-    ctx.cov["existing_tests"] = {"tests": ntests, "tests_failed": failed, "forwards_without_action_event": fwd_only, "cache_instances": len(insts), "instances_with_events": len(usable),
-                                 "events": sum(i["events"] for i in usable), "outside_window": too_big,
-                                 "conforming_instances": len(conforming), "conforming_events": sum(i["events"] for i in conforming),
-                                 "nonconforming": rejected}
-    for r in rejected:
-        why = KNOWN_DIRECT.get(str(r["instance"]).split("#")[0])
-        r["expected"] = why
-        if why:
-            ctx.notes.append("existing test instance %s not judged: the test %s" % (r["instance"], why))
-        else:
-            ctx.cov["nonconformance"] += 1
-            ctx.notes.append("existing test instance %s not explained by the spec (pass C, %s) - not judged: %s" % (r["instance"], r["invariant"], json.dumps(r["line"])[:300]))
-    if not conforming:
-        return
-    tr = os.path.join(ctx.scratch, "c08-existing-P.ndjson")
-    rows = [l for i in conforming for l in i["lines"]]
-    write_ndjson(tr, rows)
-    ctx.cov["evaluations"] += len(conforming)
-    vp = validate(ctx, SPEC, "Trace_ChangeCache", "Trace_ChangeCache_P_any.cfg", tr, timeout=3000, tag="existingP")
-    if vp.inv:
-        bad, start = locate_label(rows, max(0, (vp.line or 2) - 2))
-        report_violation(ctx, "existing:%s:%s" % (bad, vp.inv), "repository test %s: real changeCache breaks %s at event %s" % (bad, vp.inv, vp.line),
-                         {"instance": bad, "invariant": vp.inv, "state": (vp.state or {}).get("_txt"), "trace": rows[start:max(0, (vp.line or 1) - 1)]})
-        return
-    if not vp.accepted:
-        raise Inconclusive("existing tests: pass P stopped at line %s of %s\n%s" % (vp.line, vp.total, vp.out[-1500:]))
+    info["conforming_instances"] = len(conforming)
     ctx.cov["traces_validated_against_impl"] += len(conforming)
     ctx.cov["distinct_nontrivial"] += sum(1 for i in conforming if any(l["skip"] or any(o["late"] for o in l["out"]) for l in i["lines"]))
 
